@@ -285,6 +285,37 @@ def szx(chk, prog, ln, m):
         okl = isinstance(pg, T) and (pg.is_const() and pg.val < limit or c04.cc_decide(r, tm.cmp("ult", pg, K(limit, 8))) is True or bounded(r, pg, limit))
         chk.check(okl, "T-GUARD/%s/RAMP/page-exists" % key, "RAMP touches RAM page %s without first checking that it exists on a %s" % (pg, m))
         chk.count("ramp-paths")
+    # ---------------- RAMP: a compressed page is judged by what it inflates to, never by how long the stream is
+    # (an incompressible page deflates to MORE than 16384 bytes); the same state with stored or compressed pages must load
+    size_syms = set("file1[%d]" % i for i in (4, 5, 6, 7))
+    n_rej = 0
+    for r in rs:
+        if not (r.outcome == "return" and isinstance(r.ret, Agg) and r.ret.variant == 1):
+            continue
+        entered = [e.path for e in r.trace if e.path.startswith("enter:") and re.search(r"::process_[a-z0-9]+_block$", e.path)]
+        if not entered or not entered[-1].endswith("process_ramp_block"):
+            continue
+        # is this the compressed branch?  the path tested the flags word (bytes 0-1 of the chunk) somehow: evaluate that
+        # test for flags = 1 and flags = 0 and see which agrees with the branch taken
+        comp = None
+        fl = set((tm.show(blk(0)), tm.show(blk(1))))
+        for c in r.pc:
+            if c[0] in ("eq", "ne") and isinstance(c[1], T) and tm.syms(c[1]) and tm.syms(c[1]) <= fl:
+                v1 = int(tm.evaluate(c[1], {tm.show(blk(0)): 1, tm.show(blk(1)): 0}))
+                v0 = int(tm.evaluate(c[1], {tm.show(blk(0)): 0, tm.show(blk(1)): 0}))
+                took = (lambda v: v == c[2]) if c[0] == "eq" else (lambda v: v not in c[2])
+                if took(v1) and not took(v0):
+                    comp = True
+                elif took(v0) and not took(v1):
+                    comp = False
+        last = [c for c in r.pc if c[0] in ("eq", "ne")]
+        if comp is True and last and isinstance(last[-1][1], T):
+            n_rej += 1
+            bad = tm.syms(last[-1][1]) & size_syms
+            inflated = any("decompress" in x for x in tm.syms(last[-1][1]))
+            chk.check(not bad or inflated, "T-TABLE/%s/RAMP/compressed-rejection" % key,
+                      "a compressed RAM page is rejected on a condition over the length of the compressed stream (%s): an incompressible page deflates to more than 16384 bytes, and the same state with stored pages loads" % tm.show(last[-1][1])[:160])
+    chk.count("ramp-rejections", n_rej)
     # ---------------- unknown chunk: nothing applied
     for r in rs:
         if r.outcome != "return":
